@@ -26,7 +26,7 @@ def gen_family(rng, n_classes=None, kinds=None, n_variants=None, rich=False):
         if v > 0 and keys:
             for k in rng.sample(keys, rng.randint(0, min(2, len(keys)))):
                 data[k] = gen.gen_value(rng, 1, 2, gen.SAFE, gen.SAFE)
-        variants.append({'file': f'v{v}.json', 'data': data, 'ns': rng.choice([None, None, 'n', 'm::k'])})
+        variants.append({'file': f'v{v}.json', 'data': data, 'ns': rng.choice([None, None, 'n', 'm::k', 'm::k', 'z::n'])})
     files = {}
     for v in variants:
         files[v['file']] = v['data']
@@ -44,6 +44,12 @@ def gen_family(rng, n_classes=None, kinds=None, n_variants=None, rich=False):
             for ns in {ns2, v['ns']} - {None}:
                 if rng.random() < 0.7:
                     fn[ns] = {rng.choice(keys): gen.gen_value(rng, 1, 2, gen.SAFE, gen.SAFE)}
+            # entries filed under the LEAF name of a nested namespace (or under a longer path ending in it) must stay invisible
+            for ns in {ns2, v['ns']} - {None}:
+                if '::' in ns and rng.random() < 0.7:
+                    fn.setdefault(ns.split('::')[-1], {})[rng.choice(keys)] = gen.gen_value(rng, 1, 2, gen.SAFE, gen.SAFE)
+                elif rng.random() < 0.3:
+                    fn.setdefault('outer::' + ns, {})[rng.choice(keys)] = gen.gen_value(rng, 1, 2, gen.SAFE, gen.SAFE)
             if fn:
                 ctx['for_namespaces'] = fn
             v['context'] = ctx or None
@@ -223,7 +229,7 @@ def task_by_slug(chain, slug, pick=0, with_name=False):
     return ts[pick % len(ts)] if with_name else ts[pick % len(ts)][1]
 
 
-def run_history(spec, variants, ops, root, multichain=False, data=None):
+def run_history(spec, variants, ops, root, multichain=False, data=None, stamp=False):
     """execute on the real code; returns a record with python objects (to be numbered by `encode`)"""
     from taskchain.task import Task
     b = pl.materialize(spec, root / 'src', modname=spec['module'])
@@ -232,9 +238,9 @@ def run_history(spec, variants, ops, root, multichain=False, data=None):
     chains, rec = [], []
     all_chains = []
     chain_variant = {}
-    mod.RUNLOG.clear(); mod.FAIL.clear()
+    mod.RUNLOG.clear(); mod.FAIL.clear(); mod.DONE.clear(); mod.STAMPING[0] = stamp
     for op in ops:
-        before = len(mod.RUNLOG)
+        before = len(mod.RUNLOG); dbefore = len(mod.DONE)
         r = {'op': op}
         if op['op'] == 'build':
             v = variants[op['variant']]
@@ -305,6 +311,7 @@ def run_history(spec, variants, ops, root, multichain=False, data=None):
                     chain.create_readable_filenames()
                 r['task'] = task
         r['runs'] = [x[2] for x in mod.RUNLOG[before:]]
+        r['done'] = list(mod.DONE[dbefore:])
         r['state'] = snapshot(all_chains)
         rec.append(r)
     return {'rec': rec, 'chains': all_chains, 'built': b, 'mod': mod, 'data': data}
@@ -538,7 +545,7 @@ def canon_model_out(mo, io):
 
 # --------------------------------------------------------------------------------------------- driving a batch of histories
 
-def run_batch(ctx, n, allow, length=(8, 30), label='history', kinds=None, oracle=None, rich=False):
+def run_batch(ctx, n, allow, length=(8, 30), label='history', kinds=None, oracle=None, rich=False, stamp=False):
     """generate n histories, execute on the real code, replay on the model, diff per operation; call `oracle(ctx, case, hist, maps, spec)`"""
     from tcv.quiet import quiet
     quiet()
@@ -548,7 +555,7 @@ def run_batch(ctx, n, allow, length=(8, 30), label='history', kinds=None, oracle
         rng = ctx.rng(label, h)
         spec, variants = gen_family(rng, kinds=kinds, rich=rich)
         ops = gen_ops(rng, spec, variants, rng.randint(*length), allow)
-        hist = run_history(spec, variants, ops, root / f'{label}{h}')
+        hist = run_history(spec, variants, ops, root / f'{label}{h}', stamp=stamp)
         if any(r.get('error') for r in hist['rec']):
             ctx.count('construction-error'); hist['built'].cleanup_module(); continue
         seg = portable(hist, spec)
